@@ -377,6 +377,15 @@ func vxH09Tag(n int, chancap int, other bool, dotu bool) {
 			vxAssert(r.Rc.Type == Rread && refBytesEq(r.Rc.Data, []byte{byte(offs[i]), byte(offs[i] >> 8)}), "completion-carries-the-reply-to-its-own-request")
 		} else {
 			vxAssert(vxAll(r.Rc.Type == Rerror, r.Rc.Error == "no"), "completion-carries-the-reply-to-its-own-request")
+			// an Rerror is handed to the issuer as an error with the server's text and number, on this interface too
+			e, isErr := r.Err.(*Error)
+			vxAssert(isErr && e != nil, "pipelined-completion-of-an-Rerror-carries-an-error")
+			if isErr && e != nil {
+				vxAssert(e.Err == "no" && (!dotu || e.Errornum == 5), "pipelined-error-carries-the-servers-text-and-number")
+			}
+		}
+		if kinds[i] == vxKindMatch {
+			vxAssert(r.Err == nil, "pipelined-completion-of-a-matching-reply-carries-no-error")
 		}
 	}
 	peer.sync()
